@@ -13,6 +13,7 @@ derived bit field reports.  32-bit values, keys and masks are written as lists o
 """
 import itertools
 import json
+import os
 import random
 
 from rig.bitfield import BitField, UnavailableFieldError
@@ -23,6 +24,18 @@ TAGS = ("t0", "t1", "t2")
 EXACT_FIT_KEY = "MustSucceed exact-fit: widths sum to the bit field length"
 CROSS_KEY = ("MustSucceed cross-scope: fields of independent scopes (a=0 with b=1) can be present together and "
              "first-fit needs the top position or leaves a gap")
+
+
+# how the caller hands over tags (see Session.add)
+TAGFORMS = (0, 0, 1, 2, 3, 3, 4, 5, 5, 6, 7, 7, 8)
+# An automatic field given 2^k - 1 with k >= 48 gets k + 1 bits from rig (int(log(v, 2)) + 1 in floating point), so a
+# bit field that the widths fill exactly was refused.  Found by the coverage audit of the sixth session on the pinned
+# tree and repaired (fix: 62f82cb, max_value.bit_length()); the inputs are generated on every run
+# (VERIF_C08_WIDE_ONES=0 leaves them out).
+WIDE_ONES_FROM = 48
+WIDE_ONES = os.environ.get("VERIF_C08_WIDE_ONES", "1") != "0"
+WIDE_ONES_KEY = ("MustSucceed all-ones >= 48 bits: an automatic field given 2^k - 1 (k >= 48) is laid out with k + 1 "
+                 "bits, so a bit field its widths fill exactly is refused")
 
 
 RECURSION_KEY = ("MustSucceed after RecursionError: add_field through a bit field whose values come from different "
@@ -49,9 +62,14 @@ def skey(d):
 class Session(object):
     """Drives one rig BitField and the bit fields derived from it; records every operation as an event."""
 
-    def __init__(self, length, max_handles=28):
+    def __init__(self, length, max_handles=28, scribble=False):
         self.length = length
         self.root = BitField(length)
+        # the caller treats what get_tags returns as its own: it empties the set and puts a word of its own in
+        self.scribble = scribble
+        # generation bookkeeping (TLC checks the claim, clause AllPositioned): a layout has been reported and every
+        # field accepted since then was defined with a length and a position
+        self.settled = False
         self.handles = {(): self.root}       # scope -> derived rig BitField (insertion ordered)
         self.ops = []                        # replayable program
         self.ev = []
@@ -76,6 +94,7 @@ class Session(object):
         h = self.handles.get(skey(scope))
         if h is None or self.dead:
             return None
+        tags = tuple(tags)
         self.ops.append(["add", dict(scope), name, length, start, list(tags), tagform])
         if name not in self.names:
             self.names.append(name)
@@ -83,22 +102,43 @@ class Session(object):
             if t not in self.tags:
                 self.tags.append(t)
         # the shapes "a string or collection of strings" takes: 0 a space-separated string, 1 a list, 2 a set of the
-        # caller's, 3 ONE set object per combination of tags that the caller keeps and hands to every definition
-        # with those tags (what is recorded is the tags this definition was given; the set is never changed here)
-        if tagform in (0, 1) or not tags:
-            targ = None if (not tags and tagform != 1) else (" ".join(tags) if tagform == 0 else list(tags))
+        # caller's (which the caller empties once the call has returned), 3 ONE set object per combination of tags
+        # that the caller keeps and hands to every definition with those tags (what is recorded is the tags this
+        # definition was given; that set is never changed here), 4 a tuple, 5 a generator (can be read once), 6 a
+        # frozenset, 7 a string with leading, trailing and doubled spaces, 8 the keys of a dictionary
+        if not tags:
+            targ = {1: [], 4: (), 5: iter(()), 6: frozenset(), 7: "  ", 8: {}.keys()}.get(tagform)
+        elif tagform == 0:
+            targ = " ".join(tags)
+        elif tagform == 1:
+            targ = list(tags)
         elif tagform == 2:
             targ = set(tags)
-        else:
+        elif tagform == 3:
             targ = self.kept_sets.setdefault(frozenset(tags), set(tags))
+        elif tagform == 4:
+            targ = tuple(tags)
+        elif tagform == 5:
+            targ = (t for t in list(tags))
+        elif tagform == 6:
+            targ = frozenset(tags)
+        elif tagform == 7:
+            targ = " " + "  ".join(tags) + " "
+        else:
+            targ = dict.fromkeys(tags, 0).keys()
+        self._n("tags given as form %d" % tagform)
         try:
             h.add_field(name, length=length, start_at=start, tags=targ)
             res = "ok"
             self.accepted.append((name, dict(scope), length, start))
+            if length is None or start is None:
+                self.settled = False
         except Exception as ex:
             res = type(ex).__name__
             self._n("add raised " + res)
             self.dead = self.dead or isinstance(ex, RecursionError)
+        if tagform == 2 and tags:
+            targ.clear()
         self.ev.append(["add", enc_scope(scope), name, opt(length), opt(start), list(tags), res])
         return res
 
@@ -141,9 +181,23 @@ class Session(object):
         self.ev.append(["assign", res])
         if res == "ok":
             self._n("assign ok")
+            self.settled = True
             self._complete()
             self._table()
         return res
+
+    def observe(self):
+        """the table again WITHOUT another assign_fields: a layout was reported earlier and every field defined since
+        has an explicit length and position, so every field is assigned and the property's clauses apply as they do
+        after assign_fields (event "retable"; TLC verifies the claim)"""
+        if self.dead or not self.settled:
+            return None
+        self.ops.append(["observe"])
+        self.ev.append(["retable"])
+        self._n("tables without a new assign_fields")
+        self._complete()
+        self._table()
+        return "ok"
 
     # ---------------------------------------------------------------- observation
     def _shown(self, h):
@@ -200,7 +254,11 @@ class Session(object):
             for n in self._shown(h):
                 try:
                     loc, ln = h.get_location_and_length(n)
-                    tags = sorted(h.get_tags(n))
+                    got = h.get_tags(n)
+                    tags = sorted(got)
+                    if self.scribble:
+                        got.clear()
+                        got.add("scribbled")
                     fmask = bits(h.get_mask(field=n))
                     fkey = []
                     if n in scope:
@@ -237,13 +295,13 @@ class Session(object):
 
     def trace(self, label=""):
         ev = self.ev + [["end"]]
-        prog = dict(len=self.length, ops=self.ops, max_handles=self.max_handles)
+        prog = dict(len=self.length, ops=self.ops, max_handles=self.max_handles, scribble=self.scribble)
         return dict(len=self.length, ev=ev, label=label, prog=json.dumps(prog, sort_keys=True))
 
 
 def execute(prog, label="replay"):
     """re-run a recorded program (replay artefacts, selftest)"""
-    s = Session(prog["len"], prog.get("max_handles", 28))
+    s = Session(prog["len"], prog.get("max_handles", 28), prog.get("scribble", False))
     for op in prog["ops"]:
         if op[0] == "add":
             s.add(op[1], op[2], op[3], op[4], op[5], op[6])
@@ -251,6 +309,8 @@ def execute(prog, label="replay"):
             s.call(op[1], op[2])
         elif op[0] == "assign":
             s.assign(op[1])
+        elif op[0] == "observe":
+            s.observe()
     return s
 
 
@@ -362,7 +422,7 @@ def random_history(rng, mode, unsafe_ok=False):
         L = 40            # provisional; the program is re-run with the final length
     else:
         L = rng.choice([1, 2, 3, 4, 5, 6, 8, 8, 12, 16, 16, 24, 31, 32, 32, 32, 48, 52, 56, 64, 64])
-    s = Session(L)
+    s = Session(L, scribble=rng.random() < 0.3)
     need = {}             # index in s.accepted -> bits of the largest value given (generation bookkeeping)
     target = rng.randint(1, 9)
     steps = 0
@@ -392,7 +452,12 @@ def random_history(rng, mode, unsafe_ok=False):
         if ln is not None and rng.random() < 0.06:
             ln = rng.randint(1, min(L, 64))
         st = None
-        if mode == "mixed" and rng.random() < 0.42:
+        # once a layout has been reported the caller often goes on with fully explicit definitions (and looks at the
+        # table again without another assign_fields, below)
+        goes_on = mode == "mixed" and s.settled and rng.random() < 0.5
+        if goes_on and ln is None:
+            ln = rng.randint(1, max(1, min(4, L)))
+        if goes_on or (mode == "mixed" and rng.random() < 0.42):
             w = ln or 1
             r = rng.random()
             ends = [a[3] + (a[2] or 1) for a in s.accepted if a[3] is not None]
@@ -409,7 +474,11 @@ def random_history(rng, mode, unsafe_ok=False):
         tags = ()
         if rng.random() < 0.3:
             tags = tuple(sorted(rng.sample(TAGS, rng.randint(1, 2))))
-        s.add(scope, name, ln, st, tags, rng.randrange(5) % 4)
+        res = s.add(scope, name, ln, st, tags, rng.choice(TAGFORMS))
+        # every field still has a position (a layout was reported, explicit definitions since): look again at once,
+        # without another assign_fields
+        if res == "ok" and s.settled and rng.random() < 0.8:
+            s.observe()
 
     def do_call():
         scope = dict(rng.choice(list(s.handles)))
@@ -439,14 +508,19 @@ def random_history(rng, mode, unsafe_ok=False):
                 if mode == "auto" and rng.random() < 0.06:
                     k = rng.randint(40, 62)          # wide automatic fields: lengths come from a floating-point log
                 v = rng.getrandbits(k) | (1 << (k - 1))
-                if rng.random() < 0.25:
+                r3 = rng.random()
+                if r3 < 0.25:
                     v = (1 << (k - 1)) + rng.choice((0, 0, 1))      # exactly a power of two, or one more
+                elif r3 < 0.4 and (k <= WIDE_ONES_FROM - 1 or WIDE_ONES):
+                    v = (1 << k) - 1                                # the field filled to its last bit
             newvals[a[0]] = v
         m = s.call(scope, newvals)
         if m is not None:
             for (i, a) in enabled(m):
                 if a[0] in newvals:
                     need[i] = max(need.get(i, 1), newvals[a[0]].bit_length(), 1)
+            if s.settled and rng.random() < 0.15:
+                s.observe()       # a bit field derived after the layout, looked at without another assign_fields
 
     while steps < 60 and (len(s.accepted) < target or rng.random() < 0.3):
         if "add raised RecursionError" in s.counts:
@@ -463,7 +537,7 @@ def random_history(rng, mode, unsafe_ok=False):
         load = load_estimate(s.accepted, need)
         slack = rng.choice([0, 0, 0, 1, 1, 2, 3, -1])
         L2 = max(1, min(64, load + slack))
-        prog = dict(len=L2, ops=s.ops, max_handles=s.max_handles)
+        prog = dict(len=L2, ops=s.ops, max_handles=s.max_handles, scribble=s.scribble)
         s = execute(prog)
     s.assign()
     return s
@@ -500,6 +574,45 @@ def documented_examples():
     s.add({}, "a", 3); s.add({}, "b", 5)
     s.assign()
     out.append(s)
+    # an automatic field filled to its last bit, for every width: alone in a bit field of exactly that length, and
+    # beside a one-bit field under each of its two values
+    for k in range(2, 65):
+        if k >= WIDE_ONES_FROM and not WIDE_ONES:
+            break
+        s = Session(k)
+        s.add({}, "a")
+        s.call({}, {"a": (1 << k) - 1})
+        s.assign()
+        out.append(s)
+        if k < 64:
+            s = Session(k + 1)
+            s.add({}, "s", None, None, (), 4)
+            s.call({}, {"s": 0}); s.call({}, {"s": 1})
+            s.add({"s": 0}, "a"); s.add({"s": 1}, "a", None, None, ("t1",), 5)
+            s.call({"s": 0}, {"a": (1 << k) - 1}); s.call({"s": 1}, {"a": (1 << (k - 1)) + 1})
+            s.assign()
+            out.append(s)
+    # every field explicit; after the layout more explicit fields are defined and bit fields derived, and the table
+    # is read again each time without another assign_fields (the caller scribbles on what get_tags returns)
+    s = Session(32, scribble=True)
+    s.add({}, "external", 1, 31, ("fmt",), 6)
+    s.call({}, {"external": 0}); s.call({}, {"external": 1})
+    s.add({"external": 0}, "x", 8, 0, ("routing",), 7); s.add({"external": 0}, "y", 8, 8, ("routing", "app"), 7)
+    s.add({"external": 1}, "payload", 16, 0, ("routing",), 5)
+    s.assign()
+    s.add({"external": 0}, "p", 5, 16, ("app",), 5)
+    s.observe()
+    s.add({"external": 1}, "device", 4, 16, ("dev", "routing"), 8)
+    s.add({"external": 1}, "clash", 4, 14)              # overlaps payload and device: refused
+    s.observe()
+    s.call({"external": 0}, {"x": 255, "y": 1, "p": 17})
+    s.call({"external": 1}, {"device": 5})
+    s.call({"external": 1, "device": 5}, {"payload": 65535})
+    s.add({"external": 1, "device": 5}, "sub", 3, 20, ("dev2",), 4)
+    s.observe()
+    s.add({}, "late", 2, 29, (), 1)
+    s.observe()
+    out.append(s)
     # depth four, sibling scopes re-using names, one spare bit
     s = Session(9)
     s.add({}, "a")
@@ -535,11 +648,77 @@ def documented_examples():
     return out
 
 
+def far_histories(rng):
+    """the far ends of 'any depth' and of the number of fields: a chain of selectors 8-12 deep (each level a field
+    under value 0 of the level above, at every third level a one-bit sibling of the same name under value 1, tags
+    given at the bottom),
+    and 20-40 fields side by side; no explicit position, the bit field exactly as long as the widest path, or one
+    bit longer"""
+    out = []
+    for _ in range(2):
+        depth = rng.randint(8, 12)
+        widths = [rng.randint(1, 3) for _ in range(depth + 1)]
+        spare = rng.choice((0, 0, 1))
+        s = Session(sum(widths) + spare, max_handles=36, scribble=rng.random() < 0.5)
+        names = ["f%d" % i for i in range(depth + 1)]
+        order = rng.random() < 0.5
+        sc = {}
+        s.add(sc, names[0], None if rng.random() < 0.5 else widths[0])
+        for d in range(depth):
+            nxt = dict(sc); nxt[names[d]] = 0
+            alt = dict(sc); alt[names[d]] = 1
+            for v in ((0, 1) if order else (1, 0)):
+                s.call(sc, {names[d]: v})
+            w = widths[d + 1]
+            tags = (TAGS[d % 3],) if d >= depth - 2 else ()
+            # (a sibling at every third level only: TLC enumerates the unions of conditions when a layout is refused)
+            defs = [(nxt, None if rng.random() < 0.6 else w, tags)] + ([(alt, 1, ())] if d % 3 == 0 else [])
+            for (where, ln, tg) in (defs if order else defs[::-1]):
+                s.add(where, names[d + 1], ln, None, tg, rng.choice(TAGFORMS))
+            sc = nxt
+        # the values that make each automatic field as wide as planned, given from the bottom up or the top down
+        vals = [(dict((names[j], 0) for j in range(d)), names[d], (1 << widths[d]) - 1) for d in range(depth + 1)]
+        for (where, nm, v) in (vals if rng.random() < 0.5 else vals[::-1]):
+            s.call(where, {nm: v})
+        s.assign()
+        out.append(s)
+    for _ in range(2):
+        n = rng.randint(20, 40)
+        widths = [rng.choice((1, 1, 1, 2, 2, 3)) for _ in range(n)]
+        while sum(widths) > 63:
+            widths.pop()
+        n = len(widths)
+        s = Session(sum(widths) + rng.choice((0, 0, 1)), max_handles=12, scribble=rng.random() < 0.5)
+        auto = [rng.random() < 0.5 for _ in range(n)]
+        for i in range(n):
+            s.add({}, "g%d" % i, None if auto[i] else widths[i], None,
+                  tuple(sorted(rng.sample(TAGS, rng.randint(1, 2)))) if rng.random() < 0.2 else (), rng.choice(TAGFORMS))
+        top = dict(("g%d" % i, (1 << widths[i]) - 1) for i in range(n))
+        s.call({}, top)
+        s.call({}, dict(("g%d" % i, rng.randrange(1 << widths[i])) for i in range(n)))
+        s.assign()
+        out.append(s)
+    return out
+
+
 # ---------------------------------------------------------------------------- run
+def wide_ones(tr, i):
+    """an accepted call before event i gave a value 2^k - 1 with k >= WIDE_ONES_FROM"""
+    for x in tr["ev"][:i]:
+        if x[0] == "call" and x[-1] == "ok":
+            for (_, b) in x[2]:
+                if len(b) >= WIDE_ONES_FROM and b == list(range(len(b))):
+                    return True
+    return False
+
+
 def key_of(tr, i, clauses):
     e = tr["ev"][i - 1]
     classes = sorted(set(x[-1] for x in tr["ev"][:i] if x[0] in ("add", "call", "assign") and x[-1] != "ok"))
     plain = all(c in ("ValueError", "UnavailableFieldError") for c in classes)
+    if (e[0] == "assign" and plain and clauses in (["MustSucceedExactFit"], ["MustSucceed"], ["MustSucceedCrossScopes"])
+            and wide_ones(tr, i)):
+        return WIDE_ONES_KEY
     if e[0] == "assign" and plain and clauses == ["MustSucceedExactFit"]:
         return EXACT_FIT_KEY
     if e[0] == "assign" and plain and clauses == ["MustSucceedCrossScopes"]:
@@ -609,6 +788,8 @@ def run(chk):
 
     for s in documented_examples():
         take(s, "example")
+    for s in far_histories(rng):
+        take(s, "far")
     dom = [(L, n, True) for L in chk.pick((2, 3), (1, 2, 3, 4)) for n in (1, 2)]
     if not chk.quick:
         dom.append((4, 3, False))
@@ -723,8 +904,22 @@ def selftest(chk):
     loose = Session(6)
     loose.add({}, "a"); loose.call({}, {"a": 0}); loose.add({"a": 0}, "b", 2); loose.add({}, "c", 1)
     loose_t = loose.trace()
+    # the table read again without another assign_fields
+    again = Session(8, scribble=True)
+    again.add({}, "a", 2, 0, ("t0",), 5); again.assign(); again.add({}, "b", 2, 4, ("t1",), 7); again.observe()
+    again_t = again.trace()
+    last = max(i for i, e in enumerate(again_t["ev"]) if e[0] == "scope")
+    stale = dict(again_t, ev=json.loads(json.dumps(again_t["ev"])))
+    stale["ev"][last][3] = [[0, 1]]                     # the mask as it was before field b was defined
+    early = dict(fix_t, ev=fix_t["ev"][:-1] + [["retable"], ["endtable"], ["end"]])       # no layout yet
+    floating = Session(8)
+    floating.add({}, "a", 2, 0); floating.assign(); floating.add({}, "c"); floating.settled = True; floating.observe()
     cases = [
         (good, None),
+        (again_t, None),
+        (stale, "MaskIsUnion"),
+        (early, "AllPositioned"),
+        (floating.trace(), "AllPositioned"),
         (mut(move_b), "NoOverlap"),
         (mut(lambda evs: [r.__setitem__(3, 2) for i in scopes for r in evs[i][2] if r[0] == "b" and r[3] == 3]),
          "WideEnough"),
@@ -757,4 +952,4 @@ def selftest(chk):
     for v in (0, 1, 5, 0x80000000, 0xFFFFFFFF):
         if sum(1 << b for b in bits(v)) != v:
             msgs.append("bits(%d) does not round-trip" % v)
-    return not msgs, "; ".join(msgs) or "%d corrupted traces rejected with the expected clauses" % (len(cases) - 4)
+    return not msgs, "; ".join(msgs) or "%d corrupted traces rejected with the expected clauses" % (len(cases) - 5)
